@@ -13,9 +13,9 @@ package main
 //   namespace.
 
 import (
-	"golang.org/x/tools/go/ssa"
 	"fmt"
 	"go/types"
+	"golang.org/x/tools/go/ssa"
 	"reflect"
 	"sort"
 	"strings"
@@ -242,7 +242,8 @@ const (
 )
 
 // el builds an oracle entry from a compact description:
-//   children: "ns-prefix:local<card>" separated by spaces, prefixes D: C: A:
+//
+//	children: "ns-prefix:local<card>" separated by spaces, prefixes D: C: A:
 func el(ns, local, children, attrs, src string, flags ...string) rfcElem {
 	e := rfcElem{Name: xmlName{ns, local}, Src: src}
 	pre := map[string]string{"D": nsDAV, "C": nsCalDAV, "A": nsCardDAV}
@@ -702,4 +703,41 @@ func (p *Program) xmlPaths() (byLabel map[string]string, byPath map[string]strin
 		}
 	}
 	return
+}
+
+// rfcUnsignedText: elements whose text is a non-negative integer in the RFCs
+// (1*DIGIT). A Go field of a signed type accepts "-1" from the wire, and the
+// code behind it then treats the request as one without that element instead
+// of refusing it.
+var rfcUnsignedText = map[string]string{
+	"nresults":          "RFC 5323 §5.17 / RFC 6352 §10.6 / RFC 6578 §6.4: nresults is 1*DIGIT",
+	"max-resource-size": "RFC 4791 §5.2.5 / RFC 6352 §6.2.3: a positive integer",
+	"getcontentlength":  "RFC 4918 §15.4: 1*DIGIT",
+}
+
+func unsignedElementsRule(c *Ctx, pr *PropertyRun, prop string) {
+	p := c.P
+	r := NewRule(prop, prop+".unsigned-elements", "elements whose RFC type is a non-negative integer (nresults, max-resource-size, getcontentlength) are decoded into unsigned Go fields, so that a negative value is refused by the decoder (E6)")
+	pr.Rules = append(pr.Rules, r)
+	for _, xs := range p.wireStructs() {
+		for i := range xs.Fields {
+			f := &xs.Fields[i]
+			why, ok := rfcUnsignedText[f.Local]
+			if !ok || f.Attr {
+				continue
+			}
+			b, isBasic := f.Type.Underlying().(*types.Basic)
+			if !isBasic || b.Info()&types.IsInteger == 0 {
+				continue
+			}
+			r.Role("numeric-element")
+			good := b.Info()&types.IsUnsigned != 0
+			r.Ob(good)
+			r.Sample(map[string]interface{}{"field": f.Label, "element": f.Local, "go_type": f.Type.String(), "ok": good})
+			if !good {
+				r.Violation("signed|"+f.Label, p.Pos(xs.Named.Obj().Pos()), fmt.Sprintf("%s decodes <%s> into the signed type %s (%s): a negative value is accepted by the decoder instead of being refused as malformed", f.Label, f.Local, f.Type.String(), why), nil)
+			}
+		}
+	}
+	r.RequireRole("numeric-element")
 }
